@@ -26,7 +26,20 @@ type HParams struct {
 	Near      bool  `json:"near,omitempty"`
 	NearRTT   int64 `json:"near_rtt,omitempty"`
 	NearChunk int   `json:"near_chunk,omitempty"`
+	// ECN: the handler is built with enableECN and every packet carries the codepoint ECNMode(true) returns, as
+	// connection.go does (sendPackedShortHeaderPacket / appendOneShortHeaderPacket: ecn := sentPacketHandler.ECNMode(true));
+	// the ACK frames then carry the ECN counts of a conformant receiver
+	ECN bool `json:"ecn,omitempty"`
 }
+
+const (
+	sigSPHTwice   = "C20/sendmode/second-reduction-for-packets-sent-before-the-last-reduction"
+	sigSPHNoEvent = "C20/sendmode/window-lowered-without-loss-or-ce"
+	// own signature for a deviation of the unchanged tree (NOTES.md "once per window through the handler"): the CE
+	// event belongs to a non-ack-eliciting packet that was sent before the last reduction but after the last
+	// ack-eliciting one, and cubicSender only remembers ack-eliciting packet numbers
+	sigSPHTwiceAckOnly = "C20/sendmode/second-reduction-ce-attributed-to-ack-only-packet-sent-before-the-last-reduction"
+)
 
 type HOp struct {
 	K    string `json:"k"` // send | ack | timeout | mtu | tick | rounds
@@ -41,6 +54,8 @@ type HOp struct {
 	Hole     int   `json:"hole,omitempty"`
 	AckDelay int64 `json:"ad,omitempty"`
 	MDS      int64 `json:"mds,omitempty"`
+	// ack: how many of the newly acknowledged ECT-marked packets arrived CE-marked at the receiver (capped by their number)
+	CE int `json:"ce,omitempty"`
 	// rounds (macro-op, expanded inside Apply into the ordinary calls): R window-limited round trips. In each the
 	// window is filled as send{wait} does, then everything outstanding at that moment is acknowledged in ACK frames
 	// of Chunk packets (0: one frame), each arriving RTT after its largest packet left, and the window is refilled
@@ -50,16 +65,27 @@ type HOp struct {
 	RTT   int64 `json:"rtt,omitempty"`
 }
 
-type nopFrameHandler struct{}
+// lossRecorder is the frame handler of every ack-eliciting packet: the handler reports a lost packet's frames through
+// OnLost (queueFramesForRetransmission), which tells the model exactly which packets were declared lost inside a
+// ReceivedAck / OnLossDetectionTimeout call (QueueProbePacket also calls it, outside such a call: not a loss event).
+type lossRecorder struct {
+	m  *sphMachine
+	pn protocol.PacketNumber
+}
 
-func (nopFrameHandler) OnAcked(wire.Frame) {}
-func (nopFrameHandler) OnLost(wire.Frame)  {}
+func (lossRecorder) OnAcked(wire.Frame) {}
+func (r lossRecorder) OnLost(wire.Frame) {
+	if r.m.inCall {
+		r.m.lostInCall = append(r.m.lostInCall, r.pn)
+	}
+}
 
 type hpkt struct {
 	pn   protocol.PacketNumber
 	size int64
 	ae   bool
 	sent int64
+	ecn  protocol.ECN
 }
 
 type sphMachine struct {
@@ -85,17 +111,40 @@ type sphMachine struct {
 	roundsOp           bool
 	mtuAtMax           bool
 	nearExit, nearLeft bool // generator state
+
+	// once-per-window oracle (see judgeReduction)
+	inCall            bool
+	lostInCall        []protocol.PacketNumber
+	largestSent       protocol.PacketNumber // any packet
+	largestSentAE     protocol.PacketNumber // ack-eliciting packets only (what cubicSender.OnPacketSent records)
+	lsrAE             protocol.PacketNumber // largest ack-eliciting packet number sent at the last reduction
+	largestAcked      protocol.PacketNumber // largest packet number acknowledged by a frame that newly acknowledged something
+	lsr               protocol.PacketNumber // largest packet number sent when the window was last seen reduced
+	reductions        int
+	lastReductionByCE bool
+	// the receiver's ECN counters (RFC 9000 13.4.1: one count per received packet, reported cumulatively)
+	rcvECT0, rcvCE     uint64
+	ceSeen             uint64 // CE count of the last frame that raised the largest acknowledged (ecnTracker sees only those)
+	sentECT            int
+	ecnValidated       bool
+	ceRaised           bool // a window reduction caused by a CE increase alone
+	ceIgnorable        bool // a CE-raising ACK whose largest acknowledged was sent before the last reduction
+	ceIgnorableNewSent bool // ... and a new packet had been sent since that reduction
+	ceChain            int  // generator state: further CE-raising ACKs to follow within the same flight
+	ceChainSend        bool
 }
 
 func newSPHMachine(p HParams) vf.Machine[HOp] {
-	m := &sphMachine{u: vf.U("sendmode-window"), now: 3_600_000_000_000, mds: p.MDS, p: p}
+	m := &sphMachine{u: vf.U("sendmode-window"), now: 3_600_000_000_000, mds: p.MDS, p: p,
+		largestSent: protocol.InvalidPacketNumber, largestAcked: protocol.InvalidPacketNumber, lsr: protocol.InvalidPacketNumber,
+		largestSentAE: protocol.InvalidPacketNumber, lsrAE: protocol.InvalidPacketNumber}
 	m.rtt = utils.NewRTTStats()
 	m.rtt.SetMaxAckDelay(25 * time.Millisecond)
 	pers := protocol.PerspectiveClient
 	if p.Server {
 		pers = protocol.PerspectiveServer
 	}
-	m.h = ackhandler.NewSentPacketHandler(0, protocol.ByteCount(p.MDS), m.rtt, &utils.ConnectionStats{}, true, false, nil, pers, nil, utils.DefaultLogger)
+	m.h = ackhandler.NewSentPacketHandler(0, protocol.ByteCount(p.MDS), m.rtt, &utils.ConnectionStats{}, true, p.ECN, nil, pers, nil, utils.DefaultLogger)
 	m.h.DropPackets(protocol.EncryptionInitial, m.t())
 	m.h.DropPackets(protocol.EncryptionHandshake, m.t())
 	m.lastCwnd = int64(ackhandler.VerifCongestionWindow(m.h))
@@ -161,13 +210,128 @@ func (m *sphMachine) sendPacket(size int64, ackEliciting bool) {
 	var frames []ackhandler.Frame
 	largestAcked := protocol.InvalidPacketNumber
 	if ackEliciting {
-		frames = []ackhandler.Frame{{Frame: &wire.PingFrame{}, Handler: nopFrameHandler{}}}
+		frames = []ackhandler.Frame{{Frame: &wire.PingFrame{}, Handler: lossRecorder{m, pn}}}
 	} else {
 		largestAcked = 0
 	}
-	m.h.SentPacket(m.t(), pn, largestAcked, nil, frames, protocol.Encryption1RTT, protocol.ECNNon, protocol.ByteCount(size), false, false)
-	m.sent = append(m.sent, hpkt{pn: pn, size: size, ae: ackEliciting, sent: m.now})
+	ecn := protocol.ECNNon
+	if m.p.ECN {
+		ecn = m.h.ECNMode(true)
+		if ecn == protocol.ECT0 {
+			// ecnTracker.Mode: ECT(0) for the 10 testing packets, then Not-ECT until the path is validated
+			if m.sentECT >= 10 {
+				m.ecnValidated = true
+			}
+			m.sentECT++
+		}
+	}
+	m.h.SentPacket(m.t(), pn, largestAcked, nil, frames, protocol.Encryption1RTT, ecn, protocol.ByteCount(size), false, false)
+	m.sent = append(m.sent, hpkt{pn: pn, size: size, ae: ackEliciting, sent: m.now, ecn: ecn})
+	m.largestSent = pn
+	if ackEliciting {
+		m.largestSentAE = pn
+	}
 	m.work++
+}
+
+// receivedAck builds the ACK frame a conformant receiver sends for the packets in acked (ascending, sent, not yet
+// acknowledged by an earlier frame) - ranges plus, with ECN, its cumulative ECT(0) / CE counters after counting these
+// packets, ce of the ECT-marked ones as CE (RFC 9000 13.4.1) - hands it to the handler and judges a window reduction.
+func (m *sphMachine) receivedAck(acked []hpkt, ce int, ackDelay int64) *vf.Verdict {
+	pns := make([]protocol.PacketNumber, len(acked))
+	nECT := 0
+	for i, p := range acked {
+		pns[i] = p.pn
+		if p.ecn == protocol.ECT0 {
+			nECT++
+		}
+	}
+	ce = min(ce, nECT)
+	m.rcvCE += uint64(ce)
+	m.rcvECT0 += uint64(nECT - ce)
+	ranges := ackRanges(pns)
+	f := &wire.AckFrame{AckRanges: ranges, DelayTime: time.Duration(ackDelay)}
+	if m.p.ECN {
+		f.ECT0, f.ECNCE = m.rcvECT0, m.rcvCE
+	}
+	largest := ranges[0].Largest
+	before := int64(ackhandler.VerifCongestionWindow(m.h))
+	m.inCall, m.lostInCall = true, m.lostInCall[:0]
+	processed, err := m.h.ReceivedAck(f, protocol.Encryption1RTT, m.t())
+	m.inCall = false
+	if err != nil {
+		return vf.Bad(sigSPHError, "ReceivedAck(%d ranges, largest %d, ect0 %d ce %d) for sent packets returned %v", len(ranges), largest, f.ECT0, f.ECNCE, err)
+	}
+	// the CE signal the handler may act on: an ACK that newly acknowledges a packet (ReceivedAck reports that: it
+	// returns false when every packet of the frame had already left its history, e.g. declared lost), raises the
+	// largest acknowledged and whose CE count is above the one of the previous such ACK (sentPacketHandler.ReceivedAck /
+	// ecnTracker.HandleNewlyAcked, RFC 9000 13.4.2.1); it belongs to the largest acknowledged packet of this frame
+	// (RFC 9002 7.1 / B.7: sent_packets[ack.largest_acked].time_sent)
+	ceEvent := false
+	if processed {
+		if m.p.ECN && largest > m.largestAcked {
+			ceEvent = m.rcvCE > m.ceSeen
+			m.ceSeen = m.rcvCE
+		}
+		m.largestAcked = max(m.largestAcked, largest)
+	}
+	if ceEvent && m.ecnValidated && m.reductions > 0 && m.lastReductionByCE && largest <= m.lsr {
+		m.ceIgnorable = true
+		if m.largestSent > m.lsr {
+			m.ceIgnorableNewSent = true
+		}
+	}
+	return m.judgeReduction("ReceivedAck", before, ceEvent, largest)
+}
+
+// judgeReduction: "shrinks at most once per window of packets in response to loss and never in response to
+// acknowledgements". The congestion events of one handler call are the packets it declared lost (OnLost) and, for
+// an ACK, a CE increase attributed to the frame's largest acknowledged packet. If the window is lower after the
+// call, (a) there must be such an event at all and (b) one of them must belong to a packet sent after the previous
+// reduction (packet number above the largest one sent when that reduction happened): RFC 9002 7.3.1 / 7.3.2, B.6
+// OnCongestionEvent(sent_time): "No reaction if already in a recovery period". The model's mark only moves when the
+// window visibly drops, the sender's (cubicSender.largestSentAtLastCutback) on every accepted event, so the model's
+// mark is never above the sender's. The handler has no persistent-congestion collapse (OnRetransmissionTimeout has
+// no caller), so there is no exempted path.
+func (m *sphMachine) judgeReduction(call string, before int64, ceEvent bool, ceFor protocol.PacketNumber) *vf.Verdict {
+	after := int64(ackhandler.VerifCongestionWindow(m.h))
+	if after >= before {
+		return nil
+	}
+	fresh, largestEv := false, protocol.InvalidPacketNumber
+	for _, pn := range m.lostInCall {
+		fresh = fresh || pn > m.lsr
+		largestEv = max(largestEv, pn)
+	}
+	if ceEvent {
+		fresh = fresh || ceFor > m.lsr
+		largestEv = max(largestEv, ceFor)
+	}
+	if !fresh && m.reductions > 0 && largestEv > m.lsrAE {
+		// (lost packets are ack-eliciting, so this is a CE event:) only ack-only packets lie between the sender's
+		// mark and the event's packet
+		v := vf.Bad(sigSPHTwiceAckOnly, "%s lowered the congestion window %d -> %d for a congestion event (%d lost, ce increase %v) of packet %d, sent before the previous reduction (largest sent then %d, largest ack-eliciting then %d; %d reductions so far): second reduction within one window of packets",
+			call, before, after, len(m.lostInCall), ceEvent, largestEv, m.lsr, m.lsrAE, m.reductions)
+		if !vf.IsKnown(sigSPHTwiceAckOnly) {
+			return v
+		}
+		m.u.KnownHit(sigSPHTwiceAckOnly)
+		fresh = true
+	}
+	if len(m.lostInCall) == 0 && !ceEvent {
+		return vf.Bad(sigSPHNoEvent, "%s lowered the congestion window %d -> %d although no packet was declared lost and the ACK did not raise the ECN-CE count (ce %d)", call, before, after, m.rcvCE)
+	}
+	if !fresh {
+		return vf.Bad(sigSPHTwice, "%s lowered the congestion window %d -> %d for congestion events (%d lost, ce increase %v) that all belong to packets <= %d, but the window was already reduced (%d reductions so far) when packet %d was the largest sent (largest sent now %d): second reduction within one window of packets",
+			call, before, after, len(m.lostInCall), ceEvent, largestEv, m.reductions, m.lsr, m.largestSent)
+	}
+	if ceEvent && len(m.lostInCall) == 0 {
+		m.ceRaised = true
+	}
+	m.reductions++
+	m.lastReductionByCE = ceEvent
+	m.lsr, m.lsrAE = m.largestSent, m.largestSentAE
+	return nil
 }
 
 // ackRanges builds the ACK ranges (descending) for packet numbers that were really sent.
@@ -236,13 +400,8 @@ func (m *sphMachine) applyRounds(op HOp) *vf.Verdict {
 			m.sent = m.sent[c:]
 			n -= c
 			m.now = max(m.now, batch[c-1].sent+op.RTT)
-			pns := make([]protocol.PacketNumber, c)
-			for i, p := range batch {
-				pns[i] = p.pn
-			}
-			ranges := ackRanges(pns)
-			if _, err := m.h.ReceivedAck(&wire.AckFrame{AckRanges: ranges}, protocol.Encryption1RTT, m.t()); err != nil {
-				return vf.Bad(sigSPHError, "ReceivedAck(%d ranges, largest %d) for sent packets returned %v", len(ranges), ranges[0].Largest, err)
+			if v := m.receivedAck(batch, 0, 0); v != nil {
+				return v
 			}
 			if _, v := m.mode(); v != nil {
 				return v
@@ -306,7 +465,7 @@ func (m *sphMachine) Apply(op HOp) *vf.Verdict {
 		if from > to {
 			from = to
 		}
-		var pns []protocol.PacketNumber
+		var acked []hpkt
 		keep := m.sent[:0:0]
 		keep = append(keep, m.sent[:from]...)
 		for i := from; i <= to; i++ {
@@ -314,22 +473,28 @@ func (m *sphMachine) Apply(op HOp) *vf.Verdict {
 				keep = append(keep, m.sent[i])
 				continue
 			}
-			pns = append(pns, m.sent[i].pn)
+			acked = append(acked, m.sent[i])
 		}
 		keep = append(keep, m.sent[to+1:]...)
 		m.sent = keep
 		// ranges: descending, contiguous runs of packet numbers that were really sent
-		ranges := ackRanges(pns)
-		if _, err := m.h.ReceivedAck(&wire.AckFrame{AckRanges: ranges, DelayTime: time.Duration(op.AckDelay)}, protocol.Encryption1RTT, m.t()); err != nil {
-			return vf.Bad(sigSPHError, "ReceivedAck(%v) for sent packets returned %v", ranges, err)
+		if v := m.receivedAck(acked, op.CE, op.AckDelay); v != nil {
+			return v
 		}
 	case "timeout":
 		if al := int64(m.h.GetLossDetectionTimeout()); al != 0 {
 			if al > m.now {
 				m.now = al
 			}
-			if err := m.h.OnLossDetectionTimeout(m.t()); err != nil {
+			before := int64(ackhandler.VerifCongestionWindow(m.h))
+			m.inCall, m.lostInCall = true, m.lostInCall[:0]
+			err := m.h.OnLossDetectionTimeout(m.t())
+			m.inCall = false
+			if err != nil {
 				return vf.Bad(sigSPHError, "OnLossDetectionTimeout returned %v", err)
+			}
+			if v := m.judgeReduction("OnLossDetectionTimeout", before, false, 0); v != nil {
+				return v
 			}
 		}
 	case "mtu":
@@ -356,7 +521,9 @@ func (m *sphMachine) Finish(u *vf.Unit) *vf.Verdict {
 		{"inflight>=cwnd", m.atWindow}, {"inflight==cwnd", m.equalWindow}, {"window-reduced", m.shrank}, {"grew-after-reduction", m.grewAfterShrink},
 		{"near-history", m.p.Near}, {"rounds-op", m.roundsOp}, {"at-maximum", m.hitMax}, {"within-3-packets-of-maximum", m.nearMax},
 		{"window-limited-round-trips-at-maximum>=3", m.roundsAtMax >= 3}, {"window-limited-round-trips-at-maximum>=5", m.roundsAtMax >= 5},
-		{"mtu-increase-at-maximum", m.mtuAtMax}} {
+		{"mtu-increase-at-maximum", m.mtuAtMax},
+		{"ecn", m.p.ECN}, {"ecn-validated", m.ecnValidated}, {"ce-raised", m.ceRaised}, {"reductions>=2", m.reductions >= 2},
+		{"two-ce-acks-within-one-window", m.ceIgnorable}, {"ce-after-new-packet-sent", m.ceIgnorableNewSent}} {
 		if c.b {
 			u.Class(c.n)
 		}
@@ -409,8 +576,17 @@ func (m *sphMachine) Gen(t *rapid.T) HOp {
 			return op
 		}
 	}
-	op := HOp{Dt: rapid.SampledFrom([]int64{0, 0, 1000, 100_000, 1_000_000, 5_000_000, 20_000_000, 50_000_000, 300_000_000, 2_000_000_000}).Draw(t, "dt")}
 	n := len(m.sent)
+	// a CE-marking queue on the path: several CE-raising ACKs within one round trip, each acknowledging a few of the
+	// oldest outstanding packets, with new packets sent in between
+	if m.ceChain > 0 && n > 0 {
+		m.ceChain--
+		if m.ceChainSend = !m.ceChainSend; m.ceChainSend {
+			return HOp{K: "send", N: rapid.IntRange(1, 3).Draw(t, "n"), Wait: true, Dt: rapid.SampledFrom([]int64{0, 1000, 200_000}).Draw(t, "dt")}
+		}
+		return HOp{K: "ack", To: rapid.IntRange(0, min(n-1, 3)).Draw(t, "to"), CE: rapid.IntRange(0, 2).Draw(t, "ce"), Dt: rapid.SampledFrom([]int64{0, 1000, 200_000}).Draw(t, "dt")}
+	}
+	op := HOp{Dt: rapid.SampledFrom([]int64{0, 0, 1000, 100_000, 1_000_000, 5_000_000, 20_000_000, 50_000_000, 300_000_000, 2_000_000_000}).Draw(t, "dt")}
 	kinds := []string{"send", "send", "send", "ack", "ack", "ack", "timeout", "mtu", "tick"}
 	if n == 0 {
 		kinds = []string{"send", "send", "tick", "mtu"}
@@ -440,6 +616,12 @@ func (m *sphMachine) Gen(t *rapid.T) HOp {
 		if rapid.IntRange(0, 3).Draw(t, "admode") == 0 {
 			op.AckDelay = rapid.Int64Range(0, 30_000_000).Draw(t, "ad")
 		}
+		if m.p.ECN {
+			if op.CE = rapid.SampledFrom([]int{0, 0, 0, 1, 1, 2, 5}).Draw(t, "ce"); op.CE > 0 {
+				m.ceChain = rapid.SampledFrom([]int{0, 2, 4, 6}).Draw(t, "ce-chain")
+				m.ceChainSend = false
+			}
+		}
 	case "timeout":
 		op.K = "timeout"
 	case "mtu":
@@ -453,7 +635,8 @@ func (m *sphMachine) Gen(t *rapid.T) HOp {
 
 func TestSendModeWindow(t *testing.T) {
 	vf.RunMachine(t, "sendmode-window", 70, func(t *rapid.T) HParams {
-		p := HParams{MDS: rapid.SampledFrom([]int64{1200, 1252, 1280, 1452}).Draw(t, "mds"), Server: rapid.Bool().Draw(t, "server")}
+		p := HParams{MDS: rapid.SampledFrom([]int64{1200, 1252, 1280, 1452}).Draw(t, "mds"), Server: rapid.Bool().Draw(t, "server"),
+			ECN: rapid.IntRange(0, 3).Draw(t, "ecn") != 0}
 		// (a value from the middle of the range: rapid favours the ends)
 		if nearOneIn == 1 || rapid.IntRange(0, 2*nearOneIn-1).Draw(t, "near") == nearOneIn+1 {
 			p.Near = true
